@@ -101,3 +101,12 @@ reg("C17", "other",
     "memory, and every push in a reader loop must be paid for by a read of the same iteration or iterate an in-memory "
     "collection. 8 genuine findings on the pinned tree (known_findings.jsonl). The 64x multiplier is a runtime quantity and is "
     "not decided.")
+reg("C16", "other",
+    "abstract paths of the ring/patch constructors: effect whitelist, reversal table (E1), polynomial identity of the orientation sum (E2)",
+    "Structural clauses decided on every path of the constructors: every GenericPolygon constructor routes every ring through "
+    "close-then-orient before the box and the aggregate; closing pushes exactly one copy of vertex [0] and only for an open ring; "
+    "the only mutations of a ring's vector are that push and a whole-vector reverse; reversal exactly on (Outer, computed Inner) "
+    "and (Inner, computed Outer), computed on the closed ring; the per-edge term of the orientation sum expands to "
+    "c(x1y0 - x0y1) + telescoping with c > 0 and negative => inner; Multipatch::with_parts closes exactly the four ring kinds. "
+    "Not decided: floating-point rounding of the area (the property restricts orientation to exactly representable "
+    "coordinates); macro forms are checked in the thorough tier through the witness crate.")
